@@ -112,7 +112,8 @@ def canon_eq(a: str, b: str, op="==") -> str:
 class _Canon(ast.NodeTransformer):
     """Orientation-free form of the analysed tree, applied in place right after parsing (positions are kept):
     `a == b` / `a != b` with the textually larger operand first; `if not T: A else: B` as `if T: B else: A`
-    (also for conditional expressions). The idiom rules then need to know one spelling only."""
+    (also for conditional expressions); `d[k] = d[k] op v` as `d[k] op= v`. The idiom rules then need to know one
+    spelling only."""
 
     def visit_Compare(self, node):
         self.generic_visit(node)
@@ -127,6 +128,16 @@ class _Canon(ast.NodeTransformer):
         if node.orelse and isinstance(node.test, ast.UnaryOp) and isinstance(node.test.op, ast.Not):
             node.test = node.test.operand
             node.body, node.orelse = node.orelse, node.body
+        return node
+
+    def visit_Assign(self, node):
+        self.generic_visit(node)
+        # d[k] = d[k] op v  ->  d[k] op= v   (entries of containers; whole names / attributes keep their spelling)
+        if len(node.targets) == 1 and isinstance(node.targets[0], ast.Subscript) and \
+                isinstance(node.value, ast.BinOp) and not isinstance(node.targets[0].slice, ast.Slice) and \
+                ast.unparse(node.value.left) == ast.unparse(node.targets[0]):
+            return ast.copy_location(ast.AugAssign(target=node.targets[0], op=node.value.op, value=node.value.right),
+                                     node)
         return node
 
     def visit_IfExp(self, node):
